@@ -210,7 +210,44 @@ def bounded(tier, seed, procs):
         if prod[0] != "val" or got != ref:
             b2.fail(Failure("multivectors", f"what=symbolic env={env}", dict(kind="ga2s", env=repr(env)), expected="reference product", actual=outcome.describe(prod)[:200],
                             functions=["MultiVector._generic_product"]))
-    return [b, b2, b_index_tuples(tier), b_same_coefficients(tier), b_scalar_operands(tier), b_default_spaces(tier)]
+    return [b, b2, b_index_tuples(tier), b_same_coefficients(tier), b_scalar_operands(tier), b_default_spaces(tier), b_composite_blades(tier)]
+
+
+def b_composite_blades(tier):
+    """Blades that are not basis blades: vectors with several components, outer products of two and three such vectors, multiples of the pseudoscalar."""
+    import numpy as np
+    from pymbolic.geometric_algebra import MultiVector, Space
+    b = BoundedRun("composite-blades", rule="in dimensions 2..4 with the Euclidean and one mixed-signature diagonal metric: vectors with 2..dim rational components, the outer "
+                   "product of two and of three of them (blades by construction), skipped when null: inv(B) * B == 1 and B * inv(B) == 1 exactly; the outer product equals the "
+                   "antisymmetrised geometric product", bound="3 dims x 2 metrics x 6 vectors", functions=["MultiVector.inv", "MultiVector.norm_squared", "_generic_product"])
+    F = Fraction
+    for dim in (2, 3, 4):
+        for g in ((1,) * dim, (1, -1, 2, 1)[:dim]):
+            sp = Space(dim, np.diag(np.array(g, dtype=object)))
+            vecs = [MultiVector({1 << i: c for i, c in enumerate(cs) if c}, sp) for cs in ([F(1), F(2), F(0), F(0)][:dim], [F(0), F(1), F(1), F(0)][:dim], [F(1, 2), F(-1), F(3), F(1)][:dim],
+                                                                                               [F(2), F(0), F(-1), F(1, 3)][:dim])]
+            blades = [("vector", v) for v in vecs]
+            for u, v in itertools.combinations(vecs, 2):
+                blades.append(("bivector", u ^ v))
+            if dim >= 3:
+                for u, v, w in itertools.combinations(vecs, 3):
+                    blades.append(("trivector", u ^ v ^ w))
+            for kind, B in blades:
+                if not B.data:
+                    continue
+                nsq = outcome.run(lambda: B.norm_squared())
+                if nsq[0] == "val" and nsq[1] == 0:
+                    continue            # a null blade has no inverse
+                r = outcome.run(lambda: (to_ref(B.inv() * B), to_ref(B * B.inv())))
+                ncomp = len(B.data)
+                b.case(("composite-inv", dim, g, kind, repr(sorted(B.data.items()))), nontrivial=ncomp > 1, sample=dict(dim=dim, metric=list(g), kind=kind, components=ncomp))
+                if r != ("val", ({(): 1}, {(): 1})):
+                    refused = r[0] == "exc" and issubclass(r[1], NotImplementedError)
+                    cause = " cause=composite-blade-refused" if refused and ncomp > 1 and kind != "vector" else ""
+                    b.fail(Failure("composite-blades", f"what=inverse{cause} kind={kind} dim={dim} metric={g} blade={sorted(B.data.items())}"[:400],
+                                   dict(kind="ga-composite", dim=dim, metric=list(g), blade=repr(sorted(B.data.items()))), expected="inv(B)*B == 1 == B*inv(B)", actual=outcome.describe(r)[:200],
+                                   functions=["MultiVector.inv"]))
+    return b
 
 
 def b_index_tuples(tier):
